@@ -394,3 +394,17 @@ def leaves(entries, absolute=True):
             inner = [dict(x, offset=base + x["offset"]) for x in inner]
         out.extend(inner)
     return out
+
+
+def frame_entries(data):
+    """Framing only (no CRC, no decoding): complete (offset, size) entries of a message set and bytes used."""
+    out = []
+    pos = 0
+    n = len(data)
+    while n - pos >= 12:
+        off, size = struct.unpack(">qi", data[pos:pos + 12])
+        if size < 0 or n - pos - 12 < size:
+            break
+        out.append((off, size))
+        pos += 12 + size
+    return out, pos
